@@ -412,6 +412,35 @@ func TestVerif_C13LRU(t *testing.T) {
 	for d := 1; d <= depth; d++ {
 		rec(nil, d)
 	}
+	// (a') delete, then evict: a full cache of 3 or 4 keys, one of them deleted (every position), then new
+	// keys until the limit forces evictions (optionally a refresh in between); which keys remain is observed
+	for _, size := range []int{3, 4} {
+		ks := []string{"a", "b", "c", "d"}[:size]
+		for di := 0; di < size; di++ {
+			for _, refresh := range []string{"", ks[(di+1)%size]} {
+				for extra := 1; extra <= 3; extra++ {
+					var ops [][]string
+					for _, k := range ks {
+						ops = append(ops, []string{"op", "add", k})
+					}
+					ops = append(ops, []string{"op", "delete", ks[di]})
+					if refresh != "" {
+						ops = append(ops, []string{"op", "add", refresh})
+					}
+					for x := 0; x < extra; x++ {
+						ops = append(ops, []string{"op", "add", "n" + strconv.Itoa(x)})
+					}
+					for _, k := range append(append([]string{}, ks...), "n0", "n1", "n2") {
+						ops = append(ops, []string{"op", "has", k})
+					}
+					ops = append(ops, []string{"op", "size"})
+					c13LRUExec(tr, verifh.Case{Cfg: []string{"size=" + strconv.Itoa(size), "ttl=3600000000000"}, Ops: ops})
+					tr.Count("delete_then_evict_cases", 1)
+				}
+			}
+		}
+	}
+
 	// (b) random histories with real expiry: ttl 20 ms, sleeps of 8 / 25 ms
 	r := verifh.NewRand(verifh.Seed(), "c13lru")
 	keys := []string{"a", "b", "c", "d", "e"}
